@@ -757,7 +757,7 @@ class ParseResults:
     # add support for pickle protocol
     def __getstate__(self):
         return (
-            self._toklist,
+            self._toklist[:],
             (
                 self._tokdict.copy(),
                 None,
